@@ -28,6 +28,10 @@ P = {
     technique="bounded-progress monitor: backlog created from a chosen origin, then 'complete (C01 stream oracle) or stable write stuck-state' (backlog accessor > 0, poll(POLLOUT) writable, peer FIONREAD 0, idle CPU, control connection on the same poller answering) on real sockets and under the syscall shim",
     text="Creates a backlog from every origin the statement names (OnOpen before registration, the registration gap via a delay point, OnData, foreign goroutine, timer, another connection's OnClose) in every transport and epoll mode, then lets the peer read and makes no further call; liveness is restated as bounded progress and decided by a stable stuck-state predicate, never by elapsed time alone." + SHIM,
     note=TB),
+ "C05": dict(level="exploration", ref="4/C05",
+    technique="history monitor (submit/start/end events, one logical clock) decided by an O(n log n) FIFO sweep cross-checked with porcupine against a queue model; inside-counter for mutual exclusion; quiescence-decided exactly-once; seeded delay points at the hand-over; race detector with //go:norace stripped (function-set filter)",
+    text="1-16 goroutines submit Execute/MustExecute jobs on 1-4 real connections under inline, goroutine-per-call and bounded-pool executors, GOMAXPROCS 1/2/16, panicking jobs and Close racing submissions, with seeded delays at execute.afterAppend/afterJob; exactly-once, one-at-a-time, real-time FIFO, false-after-Close and MustExecute-always are decided on the recorded history; the evidence counts the hand-over windows actually observed.",
+    note=TB + " porcupine v1.3.0 is trusted as the cross-check of the hand-written sweep; its timeouts are inconclusive."),
  "C06": dict(level="exploration", ref="4/C06",
     technique="differential monitor: the same parser fed in one piece vs. every single cut, cut pairs, byte-at-a-time and random cuts; recording Processor + real Server/ClientProcessor",
     text="Grammar-generated request/response streams (pipelining, Content-Length, chunked with extensions and trailers, lenient spacing, malformed neighbours) are parsed in one piece and under exhaustive single cuts (plus pairs / byte-wise / random cuts); event sequence, delivered messages and error outcome must be identical. Exhaustive only over cut positions of the generated streams.",
@@ -52,6 +56,10 @@ P = {
     technique="boundary monitor with a tracking allocator: messages at limit-1/limit/limit+1 as one frame, fragments and deflate bombs; peak live bytes per connection and input-cache bound measured through BodyAllocator",
     text="For limits 1..100000 messages straddling the limit are sent in one frame, 2-5 fragments and as compressed frames inflating to limit-1, limit, limit+1, +24, 10x, 1000x, with pooled and size-aligned allocators and random segmentation: nothing above the limit is delivered, the connection is failed with 1009, <= limit is delivered, control frames > 125 refused on send and receive, buffered bytes stay within the stated bound.",
     note=TB),
+ "C16": dict(level="exploration", ref="4/C16",
+    technique="timed history monitor with one-sided, causally sound inequalities (never-early exact; fires/cleared bounded by a control timer and a starvation monitor), pure oracle in internal/dl; server-side stamp brackets for HTTP keep-alive and WebSocket silence",
+    text="Hundreds of connections run random histories of set / renew / clear / mixed read-write deadlines, traffic, writes that empty the backlog, closes and concurrent setters; a timeout close is never before the last effective deadline, carries the right error, does not happen after a clear / emptied backlog / renewal (until the new deadline), and does happen (control-timer calibrated). HTTP keep-alive and WebSocket silence are bracketed by server-side stamps in non-blocking and blocking mode.",
+    note=TB + " Real time is unavoidable here (nbio uses time.AfterFunc); load can only turn a case inconclusive."),
  "C17": dict(level="fault_enumeration", ref="4/C17",
     technique="model-based monitor: exact backlog model (accepted - bytes the shimmed kernel took) vs. accessor snapshots under the connection mutex after every call; writes placed at the bound; real-socket phase with a paused peer",
     text="With the syscall shim giving the kernel room for exactly Budget bytes the true backlog is known, so writes are placed below, at and one byte above MaxWriteBufferSize across 40-300 fill/drain cycles per connection; counter == queued bytes == model, <= max, overflow only when it would exceed (and then the connection closes with ErrOverflow), fitting writes always accepted, full budget back after a drain; stream content re-checked with the C01 oracle.",
@@ -59,6 +67,10 @@ P = {
  "C18": dict(level="exploration", ref="4/C18",
     technique="resource monitors around Start/Stop cycles in a long-lived process: hang predicate (h.Guard), opens == closes at Stop return, client-side close/reset observation with kernel-level probe, goroutine-stack and /proc/self/fd baselines with settle loop, per-shard slope",
     text="Each case runs one Start -> history -> Stop/Shutdown cycle of a core engine (tcp/unix/udp x epoll mode; backlogs, pending deadlines, dials still connecting, concurrent closers, clients connecting during Stop, delay points) or an HTTP engine (three I/O modes x plain/TLS, keep-alive, idle and WebSocket connections) and checks that Stop returns, every notification was delivered, every client connection was closed, and goroutines/descriptors return to the baseline.",
+    note=TB),
+ "C19": dict(level="exploration", ref="4/C19",
+    technique="history monitor for task pools and Timer.Async (exactly-once, running-counter bound, FIFO sweep), self-calibrated barrier test for capacity recovery decided by a stuck-state predicate, seeded delay points, race detector with //go:norace stripped",
+    text="Pools of 2-64 workers with queues 0-1024 get bursts of 10-100x the bound, panicking tasks, submissions racing Stop, default and custom callers, IOTaskPool buffers; tasks accepted before Stop run exactly once, at most n at a time, and after overload and idleness a barrier of as many mutually waiting tasks as a fresh pool completes must complete again; Timer.Async functions run exactly once, one at a time, in real-time FIFO order under 1-16 producers.",
     note=TB),
  "C20": dict(level="exploration", ref="4/C20",
     technique="reference-model monitor (shadow copies) + pairwise-disjointness sweeps over random allocator programs; race detector with //go:norace stripped (thorough)",
